@@ -1,2 +1,777 @@
+(* C20/Proofs.v — lemmas and invariants for the telemetry model. *)
 From OV Require Import Common.Base C20.Model.
+From Coq Require Import ZifyBool ZifyNat ZifyN.
 Open Scope Z_scope.
+
+(* ================================================================= hash.go *)
+Lemma bytes_eqb_eq a b : bytes_eqb a b = true <-> a = b.
+Proof.
+  revert b; induction a as [|x a IH]; destruct b as [|y b]; simpl; split; intros H;
+    try reflexivity; try discriminate.
+  - apply andb_true_iff in H as [H1 H2]. apply N.eqb_eq in H1. apply IH in H2. subst; reflexivity.
+  - inversion H; subst. rewrite N.eqb_refl. simpl. apply IH. reflexivity.
+Qed.
+Lemma tuple_eqb_eq a b : tuple_eqb a b = true <-> a = b.
+Proof.
+  revert b; induction a as [|x a IH]; destruct b as [|y b]; simpl; split; intros H;
+    try reflexivity; try discriminate.
+  - apply andb_true_iff in H as [H1 H2]. apply bytes_eqb_eq in H1. apply IH in H2. subst; reflexivity.
+  - inversion H; subst. apply andb_true_iff; split; [apply bytes_eqb_eq | apply IH]; reflexivity.
+Qed.
+
+Definition rest_input (r : tuple) : list N := flat_map (fun x => delim :: x) r.
+
+Lemma hash_bytes_app h a b : hash_bytes h (a ++ b) = hash_bytes (hash_bytes h a) b.
+Proof. unfold hash_bytes. apply fold_left_app. Qed.
+
+Lemma hash_values_rest h r : hash_values h false r = hash_bytes h (rest_input r).
+Proof.
+  revert h; induction r as [|v r IH]; intros h; simpl; [reflexivity|].
+  rewrite IH. change (delim :: v ++ rest_input r) with ([delim] ++ v ++ rest_input r).
+  rewrite !hash_bytes_app. reflexivity.
+Qed.
+
+(* the loop of hashLabelValues is FNV-1a over the values joined by the 0xFF delimiter *)
+Lemma hash_is_fnv_of_input t : hash_tuple t = hash_bytes fnv_offset (hash_input t).
+Proof.
+  unfold hash_tuple. destruct t as [|v r]; simpl; [reflexivity|].
+  rewrite hash_values_rest, hash_bytes_app. reflexivity.
+Qed.
+
+Definition no_delim (t : tuple) : Prop := forall v, In v t -> ~ In delim v.
+
+Lemma split_at_delim (v1 v2 s1 s2 : list N) :
+  ~ In delim v1 -> ~ In delim v2 ->
+  (s1 = [] \/ exists r, s1 = delim :: r) -> (s2 = [] \/ exists r, s2 = delim :: r) ->
+  v1 ++ s1 = v2 ++ s2 -> v1 = v2 /\ s1 = s2.
+Proof.
+  revert v2; induction v1 as [|x v1 IH]; intros v2 H1 H2 Hs1 Hs2 E.
+  - destruct v2 as [|y v2]; simpl in *; [split; auto|].
+    destruct Hs1 as [->|[r ->]]; [discriminate|]. inversion E; subst. exfalso; apply H2; left; reflexivity.
+  - destruct v2 as [|y v2]; simpl in *.
+    + destruct Hs2 as [->|[r ->]]; [discriminate|]. inversion E; subst. exfalso; apply H1; left; reflexivity.
+    + inversion E; subst. destruct (IH v2) as [-> ->]; auto.
+Qed.
+
+Lemma rest_input_shape r : rest_input r = [] \/ exists q, rest_input r = delim :: q.
+Proof. destruct r; simpl; [left; reflexivity | right; eexists; reflexivity]. Qed.
+
+Lemma rest_input_inj r1 : forall r2, no_delim r1 -> no_delim r2 -> length r1 = length r2 ->
+  rest_input r1 = rest_input r2 -> r1 = r2.
+Proof.
+  induction r1 as [|v1 r1 IH]; intros [|v2 r2] N1 N2 L E; simpl in *; try discriminate; [reflexivity|].
+  inversion E as [E']. 
+  destruct (split_at_delim v1 v2 (rest_input r1) (rest_input r2)) as [-> E2]; auto using rest_input_shape.
+  - apply N1; left; reflexivity.
+  - apply N2; left; reflexivity.
+  - f_equal. apply IH; auto.
+    + intros v Hv; apply N1; right; exact Hv.
+    + intros v Hv; apply N2; right; exact Hv.
+Qed.
+
+(* tuples of the same arity whose values contain no 0xFF byte (all valid UTF-8) are hashed from
+   different byte streams: ("ab","c") and ("a","bc") cannot be confused by concatenation *)
+Lemma delimiter_injective t1 t2 :
+  no_delim t1 -> no_delim t2 -> length t1 = length t2 -> hash_input t1 = hash_input t2 -> t1 = t2.
+Proof.
+  destruct t1 as [|v1 r1], t2 as [|v2 r2]; simpl; intros N1 N2 L E; try discriminate; [reflexivity|].
+  destruct (split_at_delim v1 v2 (rest_input r1) (rest_input r2)) as [-> E2]; auto using rest_input_shape.
+  - apply N1; left; reflexivity.
+  - apply N2; left; reflexivity.
+  - f_equal. apply rest_input_inj; auto.
+    + intros v Hv; apply N1; right; exact Hv.
+    + intros v Hv; apply N2; right; exact Hv.
+Qed.
+
+(* ================================================================= list / map helpers *)
+Lemma nth_upd {A} (l : list A) i j f :
+  nth_error (upd_nth l i f) j = if Nat.eqb i j then option_map f (nth_error l j) else nth_error l j.
+Proof.
+  revert i j; induction l as [|x l IH]; intros i j; simpl.
+  - destruct i, j; simpl; try reflexivity; destruct (Nat.eqb _ _); reflexivity.
+  - destruct i, j; simpl; try reflexivity. apply IH.
+Qed.
+Lemma upd_nth_length {A} (l : list A) i f : length (upd_nth l i f) = length l.
+Proof. revert i; induction l; intros [|i]; simpl; auto. Qed.
+
+Lemma NoDup_snoc {A} (l : list A) x : NoDup l -> ~ In x l -> NoDup (l ++ [x]).
+Proof.
+  induction l as [|y l IH]; simpl; intros ND H; [constructor; [tauto|constructor]|].
+  inversion ND; subst. constructor.
+  - intros Hin. apply in_app_iff in Hin as [Hin|[Hin|[]]]; [tauto | subst; tauto].
+  - apply IH; tauto.
+Qed.
+
+Definition keys (m : list (N * nat)) := map fst m.
+Definition ids (m : list (N * nat)) := map snd m.
+
+Lemma map_load_In m k v : map_load m k = Some v -> In (k, v) m.
+Proof.
+  induction m as [|[k' v'] m IH]; simpl; [discriminate|].
+  destruct (N.eqb_spec k k'); intros H; [inversion H; subst; left; reflexivity | right; auto].
+Qed.
+Lemma map_load_None m k : map_load m k = None -> ~ In k (keys m).
+Proof.
+  induction m as [|[k' v'] m IH]; simpl; [tauto|].
+  destruct (N.eqb_spec k k'); intros H; [discriminate|]. intros [E|E]; [congruence | apply IH; auto].
+Qed.
+Lemma map_load_unique m k v v' : NoDup (keys m) -> In (k, v) m -> map_load m k = Some v' -> v = v'.
+Proof.
+  induction m as [|[k0 v0] m IH]; simpl; [tauto|]. intros ND Hin. inversion ND; subst.
+  destruct (N.eqb_spec k k0).
+  - intros H; inversion H; subst. destruct Hin as [E|E]; [congruence|].
+    exfalso. apply H1. exact (List.in_map fst _ _ E).
+  - destruct Hin as [E|E]; [congruence|]. apply IH; auto.
+Qed.
+Lemma map_delete_In m k k' v : In (k', v) (map_delete m k) <-> In (k', v) m /\ k' <> k.
+Proof.
+  induction m as [|[k0 v0] m IH]; simpl; [tauto|].
+  destruct (N.eqb_spec k k0); simpl; rewrite IH; split.
+  - tauto.
+  - intros [[E|E] Hn]; [inversion E; subst; congruence | tauto].
+  - intros [E|[E Hn]]; [inversion E; subst; split; [left; reflexivity | congruence] | tauto].
+  - tauto.
+Qed.
+Lemma map_delete_keys m k : forall x, In x (keys (map_delete m k)) -> In x (keys m).
+Proof.
+  intros x H. apply in_map_iff in H as [[k' v] [E Hin]]. simpl in E; subst.
+  apply map_delete_In in Hin as [Hin _]. exact (List.in_map fst _ _ Hin).
+Qed.
+Lemma map_delete_ids m k : forall x, In x (ids (map_delete m k)) -> In x (ids m).
+Proof.
+  intros x H. apply in_map_iff in H as [[k' v] [E Hin]]. simpl in E; subst.
+  apply map_delete_In in Hin as [Hin _]. exact (List.in_map snd _ _ Hin).
+Qed.
+Lemma map_delete_NoDup_keys m k : NoDup (keys m) -> NoDup (keys (map_delete m k)).
+Proof.
+  induction m as [|[k0 v0] m IH]; simpl; intros ND; [constructor|]. inversion ND; subst.
+  destruct (N.eqb k k0); [auto|]. simpl. constructor; [|auto].
+  intros H. apply H1. eapply map_delete_keys; eauto.
+Qed.
+Lemma map_delete_NoDup_ids m k : NoDup (ids m) -> NoDup (ids (map_delete m k)).
+Proof.
+  induction m as [|[k0 v0] m IH]; simpl; intros ND; [constructor|]. inversion ND; subst.
+  destruct (N.eqb k k0); [auto|]. simpl. constructor; [|auto].
+  intros H. apply H1. eapply map_delete_ids; eauto.
+Qed.
+Lemma map_delete_absent m k : ~ In k (keys m) -> map_delete m k = m.
+Proof.
+  induction m as [|[k0 v0] m IH]; simpl; intros H; [reflexivity|].
+  destruct (N.eqb_spec k k0); [exfalso; apply H; left; auto|]. f_equal. apply IH. tauto.
+Qed.
+Lemma map_delete_length m k v : NoDup (keys m) -> map_load m k = Some v ->
+  Z.of_nat (length (map_delete m k)) = Z.of_nat (length m) - 1.
+Proof.
+  induction m as [|[k0 v0] m IH]; cbn [map_load map_delete keys map fst]; [intros _ H; discriminate|].
+  intros ND. inversion ND; subst.
+  destruct (N.eqb_spec k k0).
+  - intros _. subst. rewrite map_delete_absent by assumption. cbn [length]. lia.
+  - intros H. cbn [length]. specialize (IH H2 H). lia.
+Qed.
+Lemma ids_after_delete m k id id' : NoDup (keys m) -> NoDup (ids m) -> map_load m k = Some id ->
+  In id' (ids m) -> id' <> id -> In id' (ids (map_delete m k)).
+Proof.
+  intros NK NI L Hin Hne. apply in_map_iff in Hin as [[k' v] [E Hin]]. simpl in E; subst.
+  apply in_map_iff. exists (k', id'). split; [reflexivity|]. apply map_delete_In. split; [exact Hin|].
+  intros ->. apply Hne. eapply map_load_unique; eauto.
+Qed.
+Lemma not_id_after_delete m k id : NoDup (ids m) -> map_load m k = Some id -> ~ In id (ids (map_delete m k)).
+Proof.
+  intros NI L H. apply in_map_iff in H as [[k' v] [E Hin]]. simpl in E; subst.
+  apply map_delete_In in Hin as [Hin Hne]. apply map_load_In in L.
+  (* two entries with the same id *)
+  assert (forall l : list (N * nat), NoDup (ids l) -> In (k', id) l -> In (k, id) l -> k' = k) as U.
+  { induction l as [|[a b] l IHl]; simpl; [tauto|]. intros ND [E1|E1] [E2|E2]; inversion ND; subst.
+    - congruence.
+    - inversion E1; subst. exfalso. apply H1. exact (List.in_map snd _ _ E2).
+    - inversion E2; subst. exfalso. apply H1. exact (List.in_map snd _ _ E1).
+    - auto. }
+  apply Hne. eapply U; eauto.
+Qed.
+
+(* ================================================================= invariant of the repaired machine *)
+Record SInv (s : shared) : Prop := {
+  si_wf : forall k id, In (k, id) (smap s) ->
+          exists h, nth_error (hs s) id = Some h /\ hash_tuple (h_tuple h) = k /\ h_retired h = false;
+  si_keys : NoDup (keys (smap s));
+  si_ids : NoDup (ids (smap s));
+  si_noorph : forall id h, nth_error (hs s) id = Some h -> h_retired h = false -> In id (ids (smap s));
+  si_stale : forall id h, nth_error (hs s) id = Some h -> h_stale h = true -> h_retired h = true }.
+
+Definition contrib (p : pc) : Z := match p with PQ3 _ | PQ4 _ | PQ2b | PU2 _ => 1 | _ => 0 end.
+Definition over (p : pc) : Z := match p with PQ2b => 1 | _ => 0 end.
+Definition pc_ok (s : shared) (p : pc) : Prop :=
+  match p with
+  | PR2 _ | PR3 _ _ | PR4 _ _ | PR5 _ _ | PR6 => False
+  | PU2 id | PU3 id => exists h, nth_error (hs s) id = Some h /\ h_retired h = true
+  | _ => True
+  end.
+(* what every step guarantees about handles that already exist *)
+Definition ext (s s' : shared) : Prop :=
+  forall id h, nth_error (hs s) id = Some h ->
+  exists h', nth_error (hs s') id = Some h' /\ h_tuple h' = h_tuple h /\
+             (h_retired h = true -> h_retired h' = true) /\ (h_stale h = true -> h_stale h' = true).
+
+Lemma ext_refl s : ext s s.
+Proof. intros id h H. exists h. auto. Qed.
+Lemma ext_same_hs s s' : hs s' = hs s -> ext s s'.
+Proof. intros E id h H. exists h. rewrite E. auto. Qed.
+Lemma pc_ok_ext s s' p : ext s s' -> pc_ok s p -> pc_ok s' p.
+Proof.
+  intros E. destruct p; simpl; auto; intros [h [H1 H2]]; destruct (E _ _ H1) as [h' [A [B [C D]]]]; eauto.
+Qed.
+
+Lemma SInv_same_core s s' : smap s' = smap s -> hs s' = hs s -> SInv s -> SInv s'.
+Proof. intros E1 E2 [A B C D E]. constructor; rewrite ?E1, ?E2; auto. Qed.
+
+Lemma SInv_upd s id f :
+  SInv s -> (forall h, h_tuple (f h) = h_tuple h) -> (forall h, h_retired (f h) = h_retired h) ->
+  (forall h, nth_error (hs s) id = Some h -> h_stale (f h) = true -> h_retired h = true) ->
+  SInv (set_hs s (upd_nth (hs s) id f)).
+Proof.
+  intros [A B C D E] Ft Fr Fs. constructor; simpl; auto.
+  - intros k i Hin. destruct (A _ _ Hin) as [h [H1 [H2 H3]]]. rewrite nth_upd.
+    destruct (Nat.eqb_spec id i); rewrite H1; simpl; eexists; split; eauto. rewrite Ft, Fr; auto.
+  - intros i h. rewrite nth_upd. destruct (Nat.eqb_spec id i).
+    + destruct (nth_error (hs s) i) eqn:G; simpl; [|discriminate]. intros H; inversion H; subst.
+      rewrite Fr. eauto.
+    + eauto.
+  - intros i h. rewrite nth_upd. destruct (Nat.eqb_spec id i).
+    + destruct (nth_error (hs s) i) eqn:G; simpl; [|discriminate]. intros H; inversion H; subst h i.
+      rewrite Fr. intros Hs. eapply Fs; eauto.
+    + eauto.
+Qed.
+
+Lemma ext_upd s id f :
+  (forall h, h_tuple (f h) = h_tuple h) -> (forall h, h_retired h = true -> h_retired (f h) = true) ->
+  (forall h, h_stale h = true -> h_stale (f h) = true) ->
+  ext s (set_hs s (upd_nth (hs s) id f)).
+Proof.
+  intros Ft Fr Fs i h H. simpl. rewrite nth_upd. destruct (Nat.eqb id i); rewrite H; simpl; eauto 10.
+Qed.
+
+Lemma SInv_publish c s t : SInv s -> map_load (smap s) (hash_tuple t) = None ->
+  SInv (fst (publish c s t)) /\ ext s (fst (publish c s t)).
+Proof.
+  intros [A B C D E] L. unfold publish; simpl. split.
+  - assert (Hfresh : ~ In (length (hs s)) (ids (smap s))).
+    { intros H. apply in_map_iff in H as [[k i] [E1 Hin]]. simpl in E1; subst.
+      destruct (A _ _ Hin) as [h [H1 _]]. apply nth_error_Some in H1; [lia | congruence] || idtac.
+      assert (nth_error (hs s) (length (hs s)) <> None) by congruence.
+      apply nth_error_Some in H. lia. }
+    constructor; simpl.
+    + intros k i Hin. unfold map_store in Hin. apply in_app_iff in Hin as [Hin|[Hin|[]]].
+      * destruct (A _ _ Hin) as [h [H1 H2]]. exists h. split; [|exact H2].
+        rewrite nth_error_app1; [exact H1 | apply nth_error_Some; congruence].
+      * inversion Hin; subst. eexists. split; [rewrite nth_error_app2 by lia; rewrite Nat.sub_diag; reflexivity|].
+        split; reflexivity.
+    + unfold keys, map_store. rewrite map_app. simpl.
+      apply NoDup_snoc; [exact B | apply map_load_None; exact L].
+    + unfold ids, map_store. rewrite map_app. simpl.
+      apply NoDup_snoc; [exact C | exact Hfresh].
+    + intros i h H Hr. unfold ids, map_store. rewrite map_app. apply in_app_iff.
+      destruct (Nat.lt_ge_cases i (length (hs s))).
+      * rewrite nth_error_app1 in H by assumption. left. eapply D; eauto.
+      * rewrite nth_error_app2 in H by assumption.
+        destruct (i - length (hs s))%nat eqn:G; simpl in H; [|destruct n; discriminate].
+        right. simpl. left. lia.
+    + intros i h H Hs.
+      destruct (Nat.lt_ge_cases i (length (hs s))).
+      * rewrite nth_error_app1 in H by assumption. eapply E; eauto.
+      * rewrite nth_error_app2 in H by assumption.
+        destruct (i - length (hs s))%nat eqn:G; simpl in H; [|destruct n; discriminate].
+        inversion H; subst. simpl in Hs. discriminate.
+  - intros i h H. exists h. simpl. split; [|auto]. rewrite nth_error_app1; [exact H | apply nth_error_Some; congruence].
+Qed.
+
+Lemma SInv_cad s k id :
+  SInv s -> map_load (smap s) k = Some id ->
+  let s' := set_hs (set_map s (map_delete (smap s) k)) (upd_nth (hs s) id retire) in
+  SInv s' /\ ext s s' /\ Z.of_nat (length (smap s')) = Z.of_nat (length (smap s)) - 1 /\
+  (exists h, nth_error (hs s') id = Some h /\ h_retired h = true).
+Proof.
+  intros [A B C D E] L. simpl.
+  pose proof (map_load_In _ _ _ L) as Hin. destruct (A _ _ Hin) as [h0 [G1 [G2 G3]]].
+  split; [|split; [|split]].
+  - constructor; simpl.
+    + intros k' i Hi. apply map_delete_In in Hi as [Hi Hne].
+      destruct (A _ _ Hi) as [h [H1 H2]]. exists h. split; [|exact H2].
+      rewrite nth_upd. destruct (Nat.eqb_spec id i); [|exact H1]. subst i.
+      exfalso. apply Hne. symmetry. 
+      assert (In (k', id) (smap s)) as Hi' by exact Hi.
+      (* same id, two keys: contradiction with NoDup ids unless equal *)
+      destruct (N.eq_dec k k') as [->|Hk]; [reflexivity|].
+      exfalso. apply (not_id_after_delete _ _ _ C L). apply in_map_iff. exists (k', id). split; [reflexivity|].
+      apply map_delete_In. split; [exact Hi | congruence].
+    + apply map_delete_NoDup_keys; exact B.
+    + apply map_delete_NoDup_ids; exact C.
+    + intros i h. rewrite nth_upd. destruct (Nat.eqb_spec id i).
+      * subst i. rewrite G1. simpl. intros H; inversion H; subst. simpl. discriminate.
+      * intros H Hr. eapply ids_after_delete; eauto.
+    + intros i h. rewrite nth_upd. destruct (Nat.eqb_spec id i).
+      * subst i. rewrite G1. simpl. intros H; inversion H; subst. simpl. reflexivity.
+      * eauto.
+  - intros i h H. simpl. rewrite nth_upd. destruct (Nat.eqb id i); rewrite H; simpl; eauto 10.
+  - eapply map_delete_length; eauto.
+  - rewrite nth_upd, Nat.eqb_refl, G1. simpl. eexists; split; reflexivity.
+Qed.
+
+Ltac fin :=
+  repeat match goal with |- _ /\ _ => split end; simpl;
+  try (match goal with H : SInv ?s |- SInv _ => apply (SInv_same_core s); [reflexivity|reflexivity|exact H] end);
+  try apply ext_refl; try (apply ext_same_hs; reflexivity); try (intros _; lia); try lia; auto.
+
+(* One atomic step of one thread of the REPAIRED machine preserves the invariant.  R and O are the
+   contributions of all the other threads to seriesCount (reserved / not yet released slots). *)
+Lemma tstep_inv c s th R O s' th' :
+  c_variant c = Repaired -> SInv s -> pc_ok s (t_pc th) -> 0 <= O ->
+  cnt s = Z.of_nat (length (smap s)) + contrib (t_pc th) + R ->
+  (capped c = true -> cnt s - over (t_pc th) - O <= c_cap c) ->
+  tstep c s th = (s', th') ->
+  SInv s' /\ pc_ok s' (t_pc th') /\
+  cnt s' = Z.of_nat (length (smap s')) + contrib (t_pc th') + R /\
+  (capped c = true -> cnt s' - over (t_pc th') - O <= c_cap c) /\ ext s s'.
+Proof.
+  intros Hv HI Hpc HO Hc Hcap Hstep. unfold tstep in Hstep.
+  destruct (t_pc th) eqn:Epc; simpl in Hpc, Hc, Hcap; try contradiction.
+  - (* PIdle *)
+    destruct (t_prog th) as [|o rest] eqn:Eprog.
+    + inversion Hstep; subst. rewrite Epc. fin.
+    + unfold start_op in Hstep. destruct o.
+      * destruct (negb _); [inversion Hstep; subst; fin|].
+        destruct (lookup s t); inversion Hstep; subst; fin.
+      * destruct (nth_error _ slot) as [[|id]|]; [inversion Hstep; subst; fin | | inversion Hstep; subst; fin].
+        destruct (get_handle s id) as [h|]; [|inversion Hstep; subst; fin].
+        destruct (h_stale h); inversion Hstep; subst; fin.
+      * destruct (negb _); [inversion Hstep; subst; fin|].
+        destruct (lookup s t); inversion Hstep; subst; fin.
+      * destruct (negb _); [inversion Hstep; subst; fin|].
+        destruct (lookup s t); inversion Hstep; subst; fin.
+  - (* PR1 *)
+    destruct (capped c && (c_cap c <=? cnt s)); inversion Hstep; subst; rewrite ?Hv; fin.
+  - (* PQ2 *)
+    inversion Hstep; subst; clear Hstep.
+    destruct (capped c) eqn:Ecap; simpl.
+    + destruct (Z.ltb_spec (c_cap c) (cnt s + 1)); fin.
+    + fin; discriminate.
+  - (* PQ2b *)
+    inversion Hstep; subst; fin.
+  - (* PQ3 *)
+    destruct (map_load (smap s) (hash_tuple t)) as [id|] eqn:L.
+    + destruct (get_handle s id); inversion Hstep; subst; fin.
+    + destruct (publish c s t) as [s1 id] eqn:P. inversion Hstep; subst; clear Hstep.
+      destruct (SInv_publish c s t HI L) as [I1 X1]. rewrite P in I1, X1. simpl in I1, X1.
+      assert (cnt s' = cnt s /\ Z.of_nat (length (smap s')) = Z.of_nat (length (smap s)) + 1) as [E1 E2].
+      { unfold publish in P. inversion P; subst; simpl. unfold map_store. rewrite app_length. simpl. lia. }
+      fin; try (intros _); lia.
+  - (* PQ4 *)
+    inversion Hstep; subst; fin.
+  - (* PU1 *)
+    rewrite Hv in Hstep.
+    destruct (map_load (smap s) (hash_tuple t)) as [id'|] eqn:L; [|inversion Hstep; subst; fin].
+    destruct (Nat.eqb_spec id' id); [|inversion Hstep; subst; fin]. subst id'.
+    inversion Hstep; subst; clear Hstep.
+    destruct (SInv_cad s _ _ HI L) as [I1 [X1 [E1 P1]]].
+    split; [exact I1|]. split; [exact P1|]. simpl in E1. simpl.
+    split; [lia|]. split; [intros Hcp; specialize (Hcap Hcp); lia | exact X1].
+  - (* PU2 *)
+    inversion Hstep; subst; fin.
+  - (* PU3 *)
+    inversion Hstep; subst; clear Hstep. destruct Hpc as [h [G1 G2]].
+    split; [apply SInv_upd; auto; intros h0 G0 _; congruence|].
+    split; [exact I|]. simpl. split; [lia|]. split; [exact Hcap | apply ext_upd; auto].
+  - (* PE0 *)
+    destruct (get_handle s id) as [h|]; [|inversion Hstep; subst; fin].
+    destruct (h_stale h); inversion Hstep; subst; fin.
+  - (* PE1 *)
+    destruct (get_handle s id) as [h|]; inversion Hstep; subst; clear Hstep; [|fin].
+    split; [apply SInv_upd; auto; intros h0 G0 Hs; eapply si_stale; eauto|].
+    split; [exact I|]. simpl. split; [lia|]. split; [exact Hcap | apply ext_upd; auto].
+  - (* PES *) inversion Hstep; subst; fin.
+  - (* PTU *) inversion Hstep; subst; fin.
+Qed.
+
+(* ================================================================= all interleavings *)
+Definition tsum (f : thread -> Z) (l : list thread) : Z := fold_right (fun th a => f th + a) 0 l.
+
+Lemma tsum_upd f l i th th' : nth_error l i = Some th ->
+  tsum f (upd_nth l i (fun _ => th')) = tsum f l - f th + f th'.
+Proof.
+  revert i; induction l as [|x l IH]; intros [|i]; simpl; try discriminate.
+  - intros H; inversion H; subst. lia.
+  - intros H. rewrite (IH _ H). lia.
+Qed.
+Lemma tsum_nonneg f l : (forall t, 0 <= f t) -> 0 <= tsum f l.
+Proof. intros Hf. induction l as [|a l IH]; simpl; [lia | specialize (Hf a); lia]. Qed.
+Lemma tsum_ge f l i th : (forall t, 0 <= f t) -> nth_error l i = Some th -> f th <= tsum f l.
+Proof.
+  intros Hf. revert i; induction l as [|x l IH]; intros [|i]; simpl; try discriminate.
+  - intros H; inversion H; subst. pose proof (tsum_nonneg f l Hf). lia.
+  - intros H. specialize (IH _ H). specialize (Hf x). lia.
+Qed.
+Lemma tsum_le f g l : (forall t, f t <= g t) -> tsum f l <= tsum g l.
+Proof. intros H. induction l as [|x l IH]; simpl; [lia | specialize (H x); lia]. Qed.
+Lemma tsum_zero f l : Forall (fun t => f t = 0) l -> tsum f l = 0.
+Proof. induction 1; simpl; lia. Qed.
+Lemma Forall_upd {A} (P : A -> Prop) l i x : Forall P l -> P x -> Forall P (upd_nth l i (fun _ => x)).
+Proof.
+  intros H Hx. revert i; induction H; intros [|i]; simpl; constructor; auto.
+Qed.
+
+Definition fcontrib (th : thread) := contrib (t_pc th).
+Definition fover (th : thread) := over (t_pc th).
+
+Record Inv (c : cfg) (x : sys) : Prop := {
+  inv_s : SInv (sh x);
+  inv_pc : Forall (fun th => pc_ok (sh x) (t_pc th)) (ths x);
+  inv_cnt : cnt (sh x) = Z.of_nat (length (smap (sh x))) + tsum fcontrib (ths x);
+  inv_cap : capped c = true -> cnt (sh x) - tsum fover (ths x) <= c_cap c }.
+
+Lemma contrib_nonneg t : 0 <= fcontrib t.
+Proof. unfold fcontrib; destruct (t_pc t); simpl; lia. Qed.
+Lemma over_nonneg t : 0 <= fover t.
+Proof. unfold fover; destruct (t_pc t); simpl; lia. Qed.
+Lemma over_le_contrib t : fover t <= fcontrib t.
+Proof. unfold fover, fcontrib; destruct (t_pc t); simpl; lia. Qed.
+
+Lemma sys_step_inv c x i : c_variant c = Repaired -> Inv c x -> Inv c (sys_step c x i).
+Proof.
+  intros Hv [HS HP HC HK]. unfold sys_step.
+  destruct (nth_error (ths x) i) as [th|] eqn:G; [|constructor; auto].
+  destruct (finished th); [constructor; auto|].
+  destruct (tstep c (sh x) th) as [s' th'] eqn:St.
+  pose proof (tsum_upd fcontrib _ _ _ th' G) as U1. pose proof (tsum_upd fover _ _ _ th' G) as U2.
+  pose proof (tsum_ge fover _ _ _ over_nonneg G) as G2.
+  assert (Hpc : pc_ok (sh x) (t_pc th)).
+  { rewrite Forall_forall in HP. apply HP. eapply nth_error_In; eauto. }
+  destruct (tstep_inv c (sh x) th (tsum fcontrib (ths x) - fcontrib th) (tsum fover (ths x) - fover th) s' th')
+    as [I1 [I2 [I3 [I4 I5]]]]; auto.
+  - lia.
+  - change (contrib (t_pc th)) with (fcontrib th). lia.
+  - change (over (t_pc th)) with (fover th). intros Hc. specialize (HK Hc). lia.
+  - change (contrib (t_pc th')) with (fcontrib th') in I3. change (over (t_pc th')) with (fover th') in I4.
+    constructor; simpl.
+    + exact I1.
+    + apply Forall_upd; [|exact I2]. eapply Forall_impl; [|exact HP]. intros a Ha. eapply pc_ok_ext; eauto.
+    + lia.
+    + intros Hc. specialize (I4 Hc). lia.
+Qed.
+
+Lemma run_sched_inv c sched : forall x, c_variant c = Repaired -> Inv c x -> Inv c (run_sched c x sched).
+Proof.
+  induction sched as [|i r IH]; intros x Hv HI; simpl; [exact HI|]. apply IH; auto. apply sys_step_inv; auto.
+Qed.
+
+Lemma SInv0 : SInv shared0.
+Proof. constructor; simpl; try constructor; try tauto; intros [|id] h H; discriminate. Qed.
+
+Lemma Inv0 c progs : Inv c (sys0 progs).
+Proof.
+  assert (forall f, (forall p, f (thread0 p) = 0) -> tsum f (map thread0 progs) = 0) as Z0.
+  { intros f Hf. induction progs; simpl; [reflexivity | rewrite Hf; lia]. }
+  constructor; simpl.
+  - exact SInv0.
+  - apply Forall_forall. intros th H. apply in_map_iff in H as [p [<- _]]. exact I.
+  - rewrite Z0; [reflexivity | reflexivity].
+  - intros Hc. rewrite Z0 by reflexivity. unfold capped in Hc. lia.
+Qed.
+
+Lemma in_map_ids s id : in_map s id = true <-> In id (ids (smap s)).
+Proof.
+  unfold in_map, ids. rewrite existsb_exists. split.
+  - intros [[k v] [H1 H2]]. apply Nat.eqb_eq in H2. simpl in H2; subst. exact (List.in_map snd _ _ H1).
+  - intros H. apply in_map_iff in H as [[k v] [E H]]. simpl in E; subst. exists (k, id). split; [exact H | apply Nat.eqb_refl].
+Qed.
+
+Lemma finished_inv th : finished th = true -> t_pc th = PIdle /\ t_prog th = [].
+Proof. unfold finished. destruct (t_pc th); try discriminate. destruct (t_prog th); [auto|discriminate]. Qed.
+Lemma quiescent_tsum f x : quiescent x = true -> (forall th, finished th = true -> f th = 0) -> tsum f (ths x) = 0.
+Proof.
+  unfold quiescent. intros Q Hf. apply tsum_zero. apply Forall_forall. intros th Hin.
+  rewrite forallb_forall in Q. auto.
+Qed.
+
+(* ---- the user-facing facts, for every schedule of the repaired machine ---- *)
+Lemma conc_no_orphan c progs sched :
+  c_variant c = Repaired ->
+  let x := run_sched c (sys0 progs) sched in
+  forall id, (id < length (hs (sh x)))%nat -> orphan (sh x) id = false.
+Proof.
+  intros Hv x id Hid. pose proof (run_sched_inv c sched _ Hv (Inv0 c progs)) as [HS _ _ _]. fold x in HS.
+  unfold orphan, get_handle. destruct (nth_error (hs (sh x)) id) as [h|] eqn:G.
+  - destruct (h_retired h) eqn:R; [reflexivity|]. simpl.
+    rewrite (proj2 (in_map_ids _ _) (si_noorph _ HS _ _ G R)). reflexivity.
+  - apply nth_error_None in G. lia.
+Qed.
+
+Lemma conc_cap c progs sched :
+  c_variant c = Repaired ->
+  let x := run_sched c (sys0 progs) sched in
+  (0 < c_cap c -> Z.of_nat (length (snapshot (sh x))) <= c_cap c) /\
+  Z.of_nat (length (smap (sh x))) <= cnt (sh x) /\
+  (quiescent x = true -> cnt (sh x) = Z.of_nat (length (smap (sh x)))).
+Proof.
+  intros Hv x. pose proof (run_sched_inv c sched _ Hv (Inv0 c progs)) as [HS HP HC HK]. fold x in HS, HP, HC, HK.
+  assert (L : length (snapshot (sh x)) = length (smap (sh x))).
+  { unfold snapshot. destruct HS as [A _ _ _ _]. revert A. generalize (smap (sh x)) as m.
+    induction m as [|[k v] m IH]; intros A; simpl; [reflexivity|].
+    destruct (A k v (or_introl eq_refl)) as [h [H1 _]]. unfold get_handle. simpl. rewrite H1. simpl.
+    f_equal. apply IH. intros k' v' Hin. apply A. right; exact Hin. }
+  pose proof (tsum_le fover fcontrib (ths x) over_le_contrib) as LE.
+  pose proof (tsum_nonneg fover (ths x) over_nonneg).
+  assert (0 <= tsum fcontrib (ths x)) by lia.
+  split; [|split].
+  - intros Hc. rewrite L. assert (capped c = true) as Hc' by (unfold capped; lia). specialize (HK Hc'). lia.
+  - lia.
+  - intros Q. rewrite (quiescent_tsum fcontrib x Q) in HC; [lia|]. intros th E. unfold fcontrib.
+    destruct (finished_inv _ E) as [-> _]. reflexivity.
+Qed.
+
+(* two live series never carry the same tuple, and a lookup selects only a series with exactly the tuple asked for *)
+Lemma lookup_sound s t id : lookup s t = Some id -> exists h, get_handle s id = Some h /\ h_tuple h = t.
+Proof.
+  unfold lookup. destruct (map_load (smap s) (hash_tuple t)) as [i|]; [|discriminate].
+  destruct (get_handle s i) as [h|] eqn:G; [|discriminate].
+  destruct (tuple_eqb (h_tuple h) t) eqn:E; [|discriminate]. intros H; inversion H; subst.
+  apply tuple_eqb_eq in E. eauto.
+Qed.
+
+Lemma conc_series_distinct c progs sched :
+  c_variant c = Repaired ->
+  let x := run_sched c (sys0 progs) sched in
+  forall k1 id1 k2 id2 h1 h2, In (k1, id1) (smap (sh x)) -> In (k2, id2) (smap (sh x)) ->
+    get_handle (sh x) id1 = Some h1 -> get_handle (sh x) id2 = Some h2 ->
+    h_tuple h1 = h_tuple h2 -> id1 = id2.
+Proof.
+  intros Hv x k1 id1 k2 id2 h1 h2 H1 H2 G1 G2 E.
+  pose proof (run_sched_inv c sched _ Hv (Inv0 c progs)) as [HS _ _ _]. fold x in HS.
+  destruct (si_wf _ HS _ _ H1) as [a [A1 [A2 _]]]. destruct (si_wf _ HS _ _ H2) as [b [B1 [B2 _]]].
+  unfold get_handle in *. rewrite A1 in G1. rewrite B1 in G2.
+  assert (a = h1) by congruence. assert (b = h2) by congruence. subst a b.
+  assert (k2 = k1) as Hk by (rewrite <- A2, <- B2, E; reflexivity). rewrite Hk in H2.
+  pose proof (si_keys _ HS) as NK.
+  destruct (map_load (smap (sh x)) k1) as [v|] eqn:L.
+  - rewrite (map_load_unique _ _ _ _ NK H1 L), (map_load_unique _ _ _ _ NK H2 L). reflexivity.
+  - exfalso. apply map_load_None in L. apply L. exact (List.in_map fst _ _ H1).
+Qed.
+
+(* ================================================================= conservation (both variants) *)
+Definition M64 : Z := 18446744073709551616.
+Lemma u64_absorb a x : (a + u64 x) mod M64 = (a + x) mod M64.
+Proof. unfold u64, M64. rewrite Zplus_mod_idemp_r. reflexivity. Qed.
+
+Definition pending (k : kind) (p : pc) : Z :=
+  match p with PE0 _ _ d | PE1 _ _ d | PES d | PTU d => weight k d | _ => 0 end.
+(* weight of the emissions a thread has been asked to make and that have not landed anywhere yet *)
+Definition rem (k : kind) (th : thread) : Z := pending k (t_pc th) + prog_weight k (t_prog th).
+(* everywhere an emission can land *)
+Definition total (k : kind) (s : shared) : Z :=
+  sum_measure k (hs s) + drops s + unknown s + stales s + noop s.
+
+Lemma sum_measure_app k l1 l2 : sum_measure k (l1 ++ l2) = sum_measure k l1 + sum_measure k l2.
+Proof. induction l1; simpl; lia. Qed.
+Lemma sum_measure_upd k l id f h : nth_error l id = Some h ->
+  sum_measure k (upd_nth l id f) = sum_measure k l - measure k (h_val h) + measure k (h_val (f h)).
+Proof.
+  revert id; induction l as [|x l IH]; intros [|id]; simpl; try discriminate.
+  - intros H; inversion H; subst. lia.
+  - intros H. rewrite (IH _ H). lia.
+Qed.
+Lemma sum_measure_upd_same k l id f : (forall h, measure k (h_val (f h)) = measure k (h_val h)) ->
+  sum_measure k (upd_nth l id f) = sum_measure k l.
+Proof.
+  intros Hf. revert id; induction l as [|x l IH]; intros [|id]; simpl; auto.
+  - rewrite Hf; reflexivity.
+  - rewrite IH; reflexivity.
+Qed.
+
+Ltac absorb :=
+  match goal with
+  | |- ?L mod M64 = _ =>
+    match L with
+    | context [u64 ?x] => replace L with ((L - u64 x) + u64 x) by ring; rewrite u64_absorb
+    end
+  end.
+Ltac cons_done := try reflexivity; try (f_equal; lia); try (absorb; f_equal; lia).
+
+Lemma tstep_cons c s th s' th' :
+  c_kind c <> KGauge -> tstep c s th = (s', th') ->
+  (total (c_kind c) s' + rem (c_kind c) th') mod M64 = (total (c_kind c) s + rem (c_kind c) th) mod M64.
+Proof.
+  intros Hk Hstep. unfold tstep in Hstep. unfold rem, total.
+  destruct (t_pc th) eqn:Epc.
+  - (* PIdle *)
+    destruct (t_prog th) as [|o rest] eqn:Eprog.
+    + inversion Hstep; subst. rewrite Epc, Eprog. reflexivity.
+    + unfold start_op in Hstep. destruct o; simpl prog_weight; simpl pending.
+      * destruct (negb _); [inversion Hstep; subst; simpl; cons_done|].
+        destruct (lookup s t); inversion Hstep; subst; simpl; cons_done.
+      * destruct (nth_error _ slot) as [[|i]|]; [inversion Hstep; subst; simpl; cons_done | | inversion Hstep; subst; simpl; cons_done].
+        destruct (get_handle s i) as [h|]; [|inversion Hstep; subst; simpl; cons_done].
+        destruct (h_stale h); inversion Hstep; subst; simpl; cons_done.
+      * destruct (negb _); [inversion Hstep; subst; simpl; cons_done|].
+        destruct (lookup s t); inversion Hstep; subst; simpl; cons_done.
+      * destruct (negb _); [inversion Hstep; subst; simpl; cons_done|].
+        destruct (lookup s t); inversion Hstep; subst; simpl; cons_done.
+  - destruct (c_variant c); destruct (capped c && (c_cap c <=? cnt s)); inversion Hstep; subst; simpl; cons_done.
+  - (* PR2 *)
+    destruct (map_load (smap s) (hash_tuple t)) as [i|].
+    + destruct (get_handle s i) as [h|]; [destruct (tuple_eqb _ _)|]; inversion Hstep; subst; simpl; cons_done.
+    + unfold publish in Hstep. inversion Hstep; subst; simpl. rewrite sum_measure_app. simpl.
+      destruct (c_kind c); simpl; cons_done.
+  - inversion Hstep; subst; simpl; cons_done.
+  - destruct (capped c && (c_cap c <? cnt s)); inversion Hstep; subst; simpl; cons_done.
+  - inversion Hstep; subst; simpl; cons_done.
+  - inversion Hstep; subst; simpl; cons_done.
+  - inversion Hstep; subst; simpl. destruct (capped c && (c_cap c <? cnt s + 1)); simpl; cons_done.
+  - inversion Hstep; subst; simpl; cons_done.
+  - (* PQ3 *)
+    destruct (map_load (smap s) (hash_tuple t)) as [i|].
+    + destruct (get_handle s i) as [h|]; inversion Hstep; subst; simpl; cons_done.
+    + unfold publish in Hstep. inversion Hstep; subst; simpl. rewrite sum_measure_app. simpl.
+      destruct (c_kind c); simpl; cons_done.
+  - inversion Hstep; subst; simpl; cons_done.
+  - (* PU1 *)
+    destruct (c_variant c).
+    + inversion Hstep; subst; simpl. rewrite sum_measure_upd_same by reflexivity. cons_done.
+    + destruct (map_load (smap s) (hash_tuple t)) as [i|]; [|inversion Hstep; subst; simpl; cons_done].
+      destruct (Nat.eqb i id); inversion Hstep; subst; simpl; cons_done.
+      rewrite sum_measure_upd_same by reflexivity. cons_done.
+  - inversion Hstep; subst; simpl; cons_done.
+  - inversion Hstep; subst; simpl. rewrite sum_measure_upd_same by reflexivity. cons_done.
+  - (* PE0 *)
+    destruct (get_handle s id) as [h|]; [|inversion Hstep; subst; simpl; cons_done].
+    destruct (h_stale h); inversion Hstep; subst; simpl; cons_done.
+  - (* PE1 *)
+    destruct (get_handle s id) as [h|] eqn:G; inversion Hstep; subst; [|simpl; cons_done].
+    unfold get_handle in G. cbn [hs set_hs drops unknown stales noop t_pc finish t_prog pending].
+    rewrite (sum_measure_upd _ _ _ _ _ G).
+    unfold emit_into, apply_emit, weight, measure; destruct (c_kind c); [|congruence|];
+      cbn [h_val v_main v_cnt]; cons_done.
+  - inversion Hstep; subst; simpl; cons_done.
+  - inversion Hstep; subst; simpl; cons_done.
+Qed.
+
+Definition potential (k : kind) (x : sys) : Z := (total k (sh x) + tsum (rem k) (ths x)) mod M64.
+
+Lemma mod_congr a b c : a mod M64 = b mod M64 -> (a + c) mod M64 = (b + c) mod M64.
+Proof. intros H. rewrite <- (Zplus_mod_idemp_l a), <- (Zplus_mod_idemp_l b), H. reflexivity. Qed.
+
+Lemma sys_step_potential c x i : c_kind c <> KGauge -> potential (c_kind c) (sys_step c x i) = potential (c_kind c) x.
+Proof.
+  intros Hk. unfold sys_step. destruct (nth_error (ths x) i) as [th|] eqn:G; [|reflexivity].
+  destruct (finished th); [reflexivity|]. destruct (tstep c (sh x) th) as [s' th'] eqn:St.
+  unfold potential; simpl. rewrite (tsum_upd _ _ _ _ th' G).
+  pose proof (tstep_cons c _ _ _ _ Hk St) as H.
+  replace (total (c_kind c) s' + (tsum (rem (c_kind c)) (ths x) - rem (c_kind c) th + rem (c_kind c) th'))
+    with ((total (c_kind c) s' + rem (c_kind c) th') + (tsum (rem (c_kind c)) (ths x) - rem (c_kind c) th)) by ring.
+  rewrite (mod_congr _ _ _ H). f_equal. ring.
+Qed.
+
+Lemma run_sched_potential c sched : forall x, c_kind c <> KGauge ->
+  potential (c_kind c) (run_sched c x sched) = potential (c_kind c) x.
+Proof.
+  induction sched as [|i r IH]; intros x Hk; simpl; [reflexivity|]. rewrite IH by assumption. apply sys_step_potential; assumption.
+Qed.
+
+Definition progs_weight (k : kind) (progs : list (list op)) : Z := fold_right (fun p a => prog_weight k p + a) 0 progs.
+
+Lemma tsum_rem_init k progs : tsum (rem k) (map thread0 progs) = progs_weight k progs.
+Proof. induction progs as [|p r IH]; simpl; [reflexivity|]. rewrite IH. unfold rem; simpl. lia. Qed.
+
+(* every emission is accounted exactly once, for every schedule of EITHER variant:
+   at quiescence  sum over all series ever published + cardinality drops + unknown + stale (+ ghost noop)
+   = sum of the emitted weights (mod 2^64, the counters are uint64) *)
+Lemma conc_conservation c progs sched :
+  c_kind c <> KGauge ->
+  let x := run_sched c (sys0 progs) sched in
+  quiescent x = true ->
+  total (c_kind c) (sh x) mod M64 = progs_weight (c_kind c) progs mod M64.
+Proof.
+  intros Hk x Q. pose proof (run_sched_potential c sched (sys0 progs) Hk) as P. fold x in P.
+  unfold potential in P. rewrite (quiescent_tsum (rem (c_kind c)) x Q) in P.
+  - rewrite Z.add_0_r in P. rewrite P. simpl. f_equal.
+    rewrite tsum_rem_init. unfold total; simpl. lia.
+  - intros th E. unfold rem. destruct (finished_inv _ E) as [-> ->]. reflexivity.
+Qed.
+
+(* ================================================================= non-blocking *)
+(* upper bound on the number of own atomic steps a thread still needs; it does not mention the shared
+   state: no step of the machine waits for another thread, a subscriber or a channel *)
+Definition pc_cost (p : pc) : nat :=
+  match p with
+  | PIdle => 0 | PR1 _ => 6 | PR2 _ => 5 | PR3 _ _ => 4 | PR4 _ _ => 3 | PR5 _ _ => 2 | PR6 => 1
+  | PQ2 _ => 4 | PQ2b => 1 | PQ3 _ => 2 | PQ4 _ => 1
+  | PU1 _ _ => 3 | PU2 _ => 2 | PU3 _ => 1
+  | PE0 _ _ _ => 2 | PE1 _ _ _ => 1 | PES _ => 1 | PTU _ => 1
+  end%nat.
+Definition budget (th : thread) : nat := (pc_cost (t_pc th) + 7 * length (t_prog th))%nat.
+
+Lemma tstep_progress c s th : finished th = false -> (budget (snd (tstep c s th)) < budget th)%nat.
+Proof.
+  unfold finished, budget, tstep. destruct (t_pc th) eqn:E; destruct (t_prog th) as [|o rest] eqn:P;
+    try discriminate; intros _; try (unfold start_op; destruct o);
+  repeat match goal with
+         | |- context [match ?x with _ => _ end] => destruct x eqn:?
+         | |- context [if ?x then _ else _] => destruct x eqn:?
+         end; simpl; rewrite ?E, ?P; simpl; lia.
+Qed.
+
+Lemma run_thread_finishes c : forall fuel s th, (budget th <= fuel)%nat -> finished (snd (run_thread fuel c s th)) = true.
+Proof.
+  induction fuel as [|f IH]; intros s th B; simpl.
+  - unfold budget in B. unfold finished. destruct (t_pc th); simpl in B; try lia. destruct (t_prog th); simpl in B; [reflexivity | lia].
+  - destruct (finished th) eqn:F; [exact F|].
+    pose proof (tstep_progress c s th F) as Pg. destruct (tstep c s th) as [s' th'] eqn:St. simpl in Pg.
+    apply IH. lia.
+Qed.
+
+(* every operation produces exactly one result *)
+Definition opcount (th : thread) : nat :=
+  (length (t_out th) + length (t_prog th) + match t_pc th with PIdle => 0 | _ => 1 end)%nat.
+Lemma tstep_opcount c s th : opcount (snd (tstep c s th)) = opcount th.
+Proof.
+  destruct (tstep c s th) as [s' th'] eqn:St. unfold opcount. simpl. unfold tstep in St.
+  destruct (t_pc th) eqn:E; try (destruct (t_prog th) as [|o rest] eqn:P; [|unfold start_op in St; destruct o]);
+  repeat match type of St with
+         | context [match ?x with _ => _ end] => destruct x eqn:?
+         | context [if ?x then _ else _] => destruct x eqn:?
+         end; inversion St; subst; simpl; rewrite ?E, ?P; simpl; lia.
+Qed.
+Lemma run_thread_opcount c : forall fuel s th, opcount (snd (run_thread fuel c s th)) = opcount th.
+Proof.
+  induction fuel as [|f IH]; intros s th; simpl; [reflexivity|].
+  destruct (finished th); [reflexivity|]. pose proof (tstep_opcount c s th) as H.
+  destruct (tstep c s th) as [s' th']. simpl in H. rewrite IH. exact H.
+Qed.
+
+(* a single operation run alone always completes within the sequential fuel: the model never answers OutOfFuel *)
+Lemma seq_op_completes c s slots o : exists r, snd (seq_op c s slots o) = Some r.
+Proof.
+  unfold seq_op.
+  pose proof (run_thread_finishes c seq_fuel s {| t_pc := PIdle; t_prog := [o]; t_slots := slots; t_out := [] |}) as F.
+  pose proof (run_thread_opcount c seq_fuel s {| t_pc := PIdle; t_prog := [o]; t_slots := slots; t_out := [] |}) as O.
+  destruct (run_thread seq_fuel c s _) as [s' th'] eqn:R. simpl in *. rewrite F by (unfold budget, seq_fuel; simpl; lia).
+  specialize (F ltac:(unfold budget, seq_fuel; simpl; lia)).
+  destruct (finished_inv _ F) as [E1 E2]. unfold opcount in O. rewrite E1, E2 in O. simpl in O.
+  destruct (t_out th'); simpl in *; [lia | eauto].
+Qed.
+
+(* ================================================================= subscribe.go *)
+Lemma sub_publish_account b : sb_unsub b = false ->
+  sb_delivered (sub_publish b) + sb_dropped (sub_publish b) = sb_delivered b + sb_dropped b + 1 /\
+  ((sb_len b <= sb_cap b)%nat -> (sb_len (sub_publish b) <= sb_cap (sub_publish b))%nat) /\
+  sb_unsub (sub_publish b) = false /\ sb_cap (sub_publish b) = sb_cap b.
+Proof.
+  intros U. unfold sub_publish. rewrite U. destruct (Nat.ltb_spec (sb_len b) (sb_cap b)); simpl; repeat split; lia.
+Qed.
+(* a tick publishing n samples to a subscriber — even one that never reads — terminates, never exceeds the
+   channel capacity, and every sample is either delivered or counted as dropped *)
+Lemma sub_publish_n_account n : forall b, sb_unsub b = false -> (sb_len b <= sb_cap b)%nat ->
+  let b' := sub_publish_n n b in
+  sb_delivered b' + sb_dropped b' = sb_delivered b + sb_dropped b + Z.of_nat n /\ (sb_len b' <= sb_cap b')%nat.
+Proof.
+  induction n as [|n IH]; intros b U L; simpl; [split; lia|].
+  destruct (sub_publish_account b U) as [A [B [C D]]].
+  destruct (IH (sub_publish b) C (B L)) as [E F]. split; [lia | exact F].
+Qed.
